@@ -87,7 +87,7 @@ def _case(draw):
             for it in large:
                 if it["k"] in ("abs", "pgrp"):
                     it["s"] = -1
-        focus = draw(st.sampled_from(["none", "none", "repeat-abs", "abs-both-sides", "repeat-var", "abs-variants", "cancel-abs"]))
+        focus = draw(st.sampled_from(["none", "none", "repeat-abs", "abs-both-sides", "repeat-var", "abs-variants", "cancel-abs", "tiny-repeat"]))
         if focus == "repeat-abs":
             inner = draw(_side(cls, 0, False, False, 2))
             tgt = sides[0] if rel == "<=" else sides[-1]
@@ -114,7 +114,7 @@ def _case(draw):
             inner = draw(_side(cls, 0, False, False, 3))
             if len(inner) < 2:
                 inner.append({"s": 1, "k": "var", "c": None, "v": draw(st.sampled_from(VARS))})
-            how = draw(st.sampled_from(["flip-one", "negate-all", "reorder", "flip-last", "scale"]))
+            how = draw(st.sampled_from(["flip-one", "negate-all", "reorder", "flip-last", "scale", "near"]))
             other = [dict(i) for i in inner]
             if how == "flip-one":
                 other[0]["s"] = -other[0]["s"]
@@ -125,6 +125,11 @@ def _case(draw):
                     i["s"] = -i["s"]
             elif how == "reorder":
                 other = list(reversed(other))
+            elif how == "near":
+                # same inner expression up to a relative 2^-13 on the variable coefficients: prints alike at 4 digits, differs in value
+                for i in other:
+                    if i["k"] == "var":
+                        i["c"] = {"val": (1 + 2.0 ** -13) * (i["c"]["val"] if i.get("c") else 1.0)}
             else:
                 for i in other:
                     if i["k"] == "var":
@@ -134,6 +139,12 @@ def _case(draw):
             tgt = sides[0] if rel == "<=" else sides[-1]
             tgt.append({"s": 1, "k": "abs", "c": draw(_coef(cls)), "in": inner})
             tgt.append({"s": 1, "k": "abs", "c": draw(_coef(cls)), "in": other})
+        elif focus == "tiny-repeat":
+            # a variable written several times with tiny coefficients (2^-35..2^-33) whose sum is tiny but usually not zero
+            v = draw(st.sampled_from(VARS))
+            for _ in range(draw(st.integers(2, 3))):
+                sd = draw(st.sampled_from(sides))
+                sd.append({"s": draw(st.sampled_from([1, 1, -1])), "k": "var", "c": {"val": draw(st.sampled_from([2.0 ** -34, 2.0 ** -33, 3 * 2.0 ** -35]))}, "v": v})
         elif focus == "repeat-var":
             v = draw(st.sampled_from(VARS))
             for sd in sides:
@@ -250,6 +261,9 @@ def number_spellings(val, coef_pos):
         if n % 10 == 0 and n > 0:
             out += ["%de1" % (n // 10), "%de+1" % (n // 10), "%dE+01" % (n // 10), "%d.e+1" % (n // 10)]
         return out
+    if "e" in r:
+        m, e = r.split("e")        # repr uses exponent notation for tiny values: vary the mantissa / exponent spelling only
+        return [r, m + "0e" + e, m + "E" + e, m + "e" + e[0] + "0" + e[1:]]
     out = [r, r + "0"]
     if r.startswith("0."):
         out.append(r[1:])
